@@ -26,11 +26,12 @@ from .. import tables_c17
 from ..tables import TablesError
 
 PID = "C17"
+RUNTAG = f"p{__import__('os').getpid()}_"     # several runs of this check may share work/C17 (labs, the lead's registration run)
 COVERAGE = {}         # line coverage of the files in scope, measured in the workers (sys.settrace)
 ORACLE_PROCS = 4      # exact-arithmetic oracle (pure python); small on purpose: the machine is shared
 PROOF_FILES = ["theories/Props/C17.v", "theories/Checker/TetMesh.v", "theories/Proofs/TetMeshPoly.v",
                "theories/Proofs/TetMeshCaps.v", "theories/Proofs/TetMeshCurved.v", "theories/Proofs/TetMeshBodyProofs.v",
-               "theories/Proofs/TetMeshBoxCom.v", "theories/Proofs/TetMeshCylDisj.v",
+               "theories/Proofs/TetMeshBoxCom.v", "theories/Proofs/TetMeshCylDisj.v", "theories/Proofs/TetMeshCylPrism.v",
                "theories/Proofs/TetMeshBase.v", "theories/Proofs/TetMeshSym.v", "theories/Proofs/TetMeshBox.v",
                "theories/Proofs/TetMeshCyl.v", "theories/Proofs/TetMeshIcoKey.v", "theories/Proofs/TetMeshIcoPure.v",
                "theories/Proofs/TetMeshIco.v", "theories/Proofs/TetMeshHelpers.v"]
@@ -246,7 +247,7 @@ def run_impl_cases(cases, tag):
     # slot, so only a few workers
     nw = max(1, min(4, len(cases) // 60))
     chunks = [cases[i::nw] for i in range(nw)]
-    res = cm.run_impl_parallel(PID, "c17", [dict(cases=c, coverage=True) for c in chunks], timeout=900, tag=tag)
+    res = cm.run_impl_parallel(PID, "c17", [dict(cases=c, coverage=True) for c in chunks], timeout=900, tag=RUNTAG + tag)
     out = [None] * len(cases)
     for w, (rr, ch) in enumerate(zip(res, chunks)):
         idxs = list(range(w, len(cases), nw))
@@ -260,7 +261,7 @@ def run_impl_cases(cases, tag):
                     COVERAGE[name]["lines"].update(lines)
                     COVERAGE[name]["hit"].update(cov["hit"].get(name, []))
         else:
-            singles = cm.run_impl_parallel(PID, "c17", [dict(cases=[c]) for c in ch], timeout=300, tag=tag + "_iso")
+            singles = cm.run_impl_parallel(PID, "c17", [dict(cases=[c]) for c in ch], timeout=300, tag=RUNTAG + tag + "_iso")
             for i, s in zip(idxs, singles):
                 out[i] = (s["result"]["results"][0] if s["status"] == "ok" else
                           dict(exc=f"PROCESS-{s['status'].upper()}", exc_msg=f"rc={s.get('rc')} {s.get('log', '')[-300:]}"))
@@ -277,6 +278,33 @@ def _judge(args):
 
 
 # ---------------------------------------------------------------- Coq side
+def eval_lines(header, exprs, tag, per_file):
+    """cm.coq_eval_lines with one retry in a fresh directory: a collision with another run of the same check, a slot
+    time-out or a transient failure of the machine must not turn into a verdict; a second failure is reported"""
+    if not exprs:
+        return []
+    # balance the files: deal the expressions, longest first, round-robin over the files (the cost of a case grows with
+    # the size of its literal), evaluate in that order, and put the answers back in the caller's order
+    nfiles = max(1, -(-len(exprs) // per_file))
+    per = -(-len(exprs) // nfiles)
+    by_size = sorted(range(len(exprs)), key=lambda i: -len(exprs[i]))
+    buckets = [[] for _ in range(nfiles)]
+    for rank, i in enumerate(by_size):
+        buckets[rank % nfiles].append(i)
+    order = [i for b in buckets for i in b]
+    # every bucket has at most `per` entries and only the last ones are shorter: contiguous chunks of `per` = the buckets
+    # when len(exprs) is a multiple of nfiles; otherwise the chunks are merely well mixed, which is all that is needed
+    permuted = [exprs[i] for i in order]
+    try:
+        outs = cm.coq_eval_lines(PID, header, permuted, tag=RUNTAG + tag, per_file=per)
+    except RuntimeError:
+        outs = cm.coq_eval_lines(PID, header, permuted, tag=RUNTAG + tag + "_retry", per_file=max(1, per // 2), timeout=1800)
+    res = [None] * len(exprs)
+    for pos, i in enumerate(order):
+        res[i] = outs[pos]
+    return res
+
+
 def parse_coq_value(s):
     s = s.replace("%Z", "").replace("%float", "").replace("%nat", "")
     s = re.sub(r"\((-[0-9][0-9.e+-]*)\)", r"\1", s)
@@ -531,8 +559,8 @@ def run(tier, seed, replay=None):
     diffs = 0
     validated = 0
     try:
-        outs = cm.coq_eval_lines(PID, HEADER_MODEL, m_exprs + [f"run_ico {o}%nat" for o in ico_orders if o in ico_need],
-                                 tag="model", per_file=max(8, len(m_exprs) // 6 + 1))
+        outs = eval_lines(HEADER_MODEL, m_exprs + [f"run_ico {o}%nat" for o in ico_orders if o in ico_need],
+                          "model", max(8, len(m_exprs) // 6 + 1))
         for i, o in zip(m_idx, outs[:len(m_idx)]):
             d = compare_model(cases[i], results[i], parse_coq_value(o))
             if d:
@@ -560,7 +588,7 @@ def run(tier, seed, replay=None):
     lap("coq_model")
     helpers_validated = 0
     try:
-        outs = cm.coq_eval_lines(PID, HEADER_MODEL, h_exprs, tag="helpers", per_file=max(1, len(h_exprs) // 6 + 1))
+        outs = eval_lines(HEADER_MODEL, h_exprs, "helpers", max(1, len(h_exprs) // 6 + 1))
         for (i, k), o in zip(h_idx, outs):
             if k is None:
                 d = compare_helpers(cases[i], results[i], parse_coq_value(o))
@@ -585,7 +613,7 @@ def run(tier, seed, replay=None):
     lap("coq_helpers")
     cert_true = 0
     try:
-        outs = cm.coq_eval_lines(PID, HEADER_CERT, c_exprs, tag="cert", per_file=max(1, len(c_exprs) // 6 + 1))
+        outs = eval_lines(HEADER_CERT, c_exprs, "cert", max(1, len(c_exprs) // 6 + 1))
         for i, o in zip(c_idx, outs):
             ok = o.strip() == "true"
             cert_true += ok
@@ -620,4 +648,11 @@ def run(tier, seed, replay=None):
             if v.get("fails"):
                 R.failure("; ".join(v["fails"][:3]), c, site=f"make_tetrahedral_{c['factory']}")
                 break
+    # remove this run's scratch (inputs / outputs of the workers, generated .v files)
+    import shutil
+    for pth in (cm.WORK / PID).glob(RUNTAG + "*"):
+        try:
+            shutil.rmtree(pth) if pth.is_dir() else pth.unlink()
+        except OSError:
+            pass
     return R.finish()
